@@ -121,6 +121,30 @@ func routeGen(kind string, sequential bool) func(r *rand.Rand, tier string) []sp
 			}
 			out = append(out, spec.Case{Kind: kind, P: spec.MustJSON(p)})
 		}
+		if kind == "mux" {
+			// the same rounds between the host and a real net/rpc plugin process
+			// (with and without AutoMTLS on the underlying connection)
+			np := 4
+			if tier == "thorough" {
+				np = 60
+			}
+			for i := 0; i < np; i++ {
+				p := spec.RouteCase{Kind: kind, Seed: r.Int63n(1 << 30), Proc: []string{"cmd", "runner"}[i%2], TLS: []string{"none", "auto"}[(i/2)%2], DispG: r.Intn(3)}
+				k := 2 + r.Intn(20)
+				nextID := map[string]uint32{"host": 1000, "plugin": 1000}
+				for j := 0; j < k; j++ {
+					it := spec.RouteItem{Dir: pick(r, []string{"host", "plugin"}), AcceptFirst: r.Intn(2) == 0, GapMs: pick(r, []int{0, 0, 10, 50, 300}), Len: r.Intn(5000)}
+					accSide := "plugin"
+					if it.Dir == "plugin" {
+						accSide = "host"
+					}
+					it.ID = nextID[accSide]
+					nextID[accSide]++
+					p.Items = append(p.Items, it)
+				}
+				out = append(out, spec.Case{Kind: "mux-proc", P: spec.MustJSON(p)})
+			}
+		}
 		if kind == "grpc" {
 			// the same rounds through a real plugin subprocess: Cmd / custom runner /
 			// custom runner whose plugin sees the socket directory under another path
@@ -320,7 +344,7 @@ func routeJudge(prop string) func(c spec.Case, evs []spec.Event, d *Death) CaseR
 				viol("earlier-connection-broken", fmt.Sprintf("after establishment %d: earlier brokered connections: %v", h.Idx, h.Reping))
 			}
 		}
-		if p.Proc == "runner" || p.Proc == "runner-translate" {
+		if p.Kind != "mux" && (p.Proc == "runner" || p.Proc == "runner-translate") {
 			// every address crossing the host/plugin boundary must go through the runner's translator
 			hostAccepts, hostDials := 0, 0
 			for _, it := range p.Items {
